@@ -11,6 +11,7 @@ from hypothesis import strategies as st
 from pbt.common import impl
 from pbt.common.core import Violation, digest, run_hypothesis, ddmin_list
 from pbt.checks.c01 import gen_program
+from pbt.gen import programs as gp
 
 ID = 'C10'
 LEVEL = 'exploration'
@@ -209,9 +210,73 @@ def fresh_process_parse(text):
     return json.loads(r.stdout) if r.returncode == 0 else ('failed', r.stderr[-200:])
 
 
+EXTRA_TOKEN_LINES = [
+    ('', [(None, 'lbl'), ('opt', ':')]), ('', [(None, 'jump'), ('req', 'lbl')]),
+    ('', [(None, 'jumpif'), ('opt', '('), ('opt', 'xx'), ('opt', '>'), ('opt', '1'), ('opt', ')'), ('req', 'lbl')]),
+    ('', [(None, 'include'), ('req', "'a b.bare'")]), ('', [(None, 'include'), ('req', '<args.bare>')]),
+    ('', [(None, 'zz'), ('opt', '='), ('opt', "'it\\'s # not a comment'")]), ('', [(None, 'zz'), ('opt', '='), ('opt', '[a b]'), ('opt', '+'), ('opt', '1')]),
+]
+
+
+def render_tight(lines):
+    return '\n'.join(ind + ''.join((' ' if gap == 'req' else '') + tok for gap, tok in toks) for ind, toks in lines) + '\n'
+
+
+def render_layout(rnd, lines):
+    """Random layout of the same logical lines: optional blanks, continuation at any token boundary, comments, indentation."""
+    out, feats = [], set()
+    for ind, toks in lines:
+        indent = rnd.choice([ind, ind, '', '  ', '\t'])
+        if indent != ind:
+            feats.add('indent')
+        cur = indent
+        nbreaks = 0
+        pbreak = rnd.choice([0.0, 0.0, 0.1, 0.3, 1.0])
+        for i, (gap, tok) in enumerate(toks):
+            if i > 0 and rnd.random() < pbreak:
+                out.append(cur + rnd.choice([' \\', '\\', ' \\  ', '\t\\\t']))
+                nbreaks += 1
+                feats.add('continuation')
+                feats.add('continuation-at-optional-gap' if gap == 'opt' else 'continuation-at-required-gap')
+                kind = toks[0][1]
+                if kind in ('if', 'elif', 'while', 'for'):
+                    feats.add('continuation-in-condition')
+                elif kind == 'function':
+                    feats.add('continuation-in-function-header')
+                if rnd.random() < 0.3:
+                    out.append(rnd.choice(['', '# comment \\', '   ', '#']))
+                    feats.add('comment-inside-continuation')
+                cur = rnd.choice(['', '  ', '\t']) + tok
+            elif i == 0:
+                cur += tok
+            else:
+                cur += (rnd.choice([' ', '  ', '\t']) if gap == 'req' else rnd.choice(['', '', ' ', '  '])) + tok
+        trail = rnd.choice(['', '', '  ', '\t'])
+        if trail:
+            feats.add('trailing-blanks')
+        out.append(cur + trail)
+        if rnd.random() < 0.3:
+            out.append(rnd.choice(['', '# c', '  # indented comment', '\t']))
+            feats.add('inserted-comment-or-blank')
+    nl = rnd.choice(['\n', '\r\n'])
+    if nl == '\r\n':
+        feats.add('crlf')
+    return nl.join(out), feats, nl
+
+
+def gen_token_program(rnd, size):
+    prog, src, globals0, pg = gen_program(rnd, size)
+    lines = gp.program_token_lines(prog)
+    for _ in range(rnd.choice([0, 1, 2, 3])):
+        pos = rnd.choice([0, len(lines)])
+        lines.insert(pos, rnd.choice(EXTRA_TOKEN_LINES))
+    return lines
+
+
 def plan(tier):
     specs = [{'kind': 'shipped', 'n': 25 if tier == 'quick' else 600, 'k': i} for i in range(4 if tier == 'quick' else 8)]
-    specs += [{'kind': 'programs', 'n': 700 if tier == 'quick' else 40000, 'k': i} for i in range(10 if tier == 'quick' else 16)]
+    specs += [{'kind': 'programs', 'n': 700 if tier == 'quick' else 40000, 'k': i} for i in range(4 if tier == 'quick' else 8)]
+    specs += [{'kind': 'tokens', 'n': 700 if tier == 'quick' else 40000, 'k': i} for i in range(7 if tier == 'quick' else 8)]
     specs += [{'kind': 'fresh'}]
     return specs
 
@@ -254,6 +319,19 @@ def run_shard(ctx, spec):
         second = [impl.bs.parse_expression(e) for e in reversed(exprs)][::-1]
         if first != second:
             ctx.violation(Violation('parse_expression is not deterministic', {'kind': 'fresh', 'name': 'expr'}, 'expression-stateful'))
+        return
+
+    if spec['kind'] == 'tokens':
+        def tprop(seed, size):
+            rnd = random.Random(seed)
+            lines = gen_token_program(rnd, size)
+            text = render_tight(lines)
+            rewritten, feats, nl = render_layout(rnd, lines)
+            chunks, form = chunked(rnd, rewritten, nl)
+            check_rewrite(text, rewritten, chunks, form, 'generated program (token level)')
+            nt = rewritten != text and ('continuation' in feats or form != 'string')
+            ctx.case(digest(rewritten + form), nt, ['generated-token-level', 'chunks:' + form] + sorted(feats), {'original': text[:400], 'rewritten': rewritten[:600]})
+        run_hypothesis(ctx, tprop, [st.integers(0, 2 ** 32 - 1), st.integers(1, 4)], spec['n'], salt=50 + spec['k'])
         return
 
     def prop(seed, size):
